@@ -117,117 +117,178 @@ func (e *Env) val(v ssa.Value) Val {
 func (e *Env) Walk(b, pred *ssa.BasicBlock) Outcome {
 	steps := 0
 	for {
-		if e.StopBlock[b] {
-			return Outcome{Kind: "stop", Stop: b.Instrs[0]}
-		}
-		var next *ssa.BasicBlock
-		for _, in := range b.Instrs {
-			steps++
-			if steps > e.Budget {
-				return Outcome{Kind: "unknown", Why: "step budget exhausted"}
-			}
-			if e.StopAt[in] {
-				return Outcome{Kind: "stop", Stop: in}
-			}
-			switch x := in.(type) {
-			case *ssa.Phi:
-				if pred == nil {
-					continue
-				}
-				for i, p := range b.Preds {
-					if p == pred {
-						e.Bind[x] = e.val(x.Edges[i])
-					}
-				}
-			case *ssa.BinOp:
-				if _, pre := e.Bind[x]; pre {
-					continue // forced by the caller
-				}
-				e.Bind[x] = binop(x.Op, e.val(x.X), e.val(x.Y), x.Type())
-			case *ssa.UnOp:
-				if _, pre := e.Bind[x]; pre {
-					continue
-				}
-				a := e.val(x.X)
-				switch {
-				case a == nil:
-					e.Bind[x] = nil
-				case x.Op == token.NOT && a.Kind() == constant.Bool:
-					e.Bind[x] = constant.MakeBool(!constant.BoolVal(a))
-				case x.Op == token.SUB && a.Kind() == constant.Int:
-					e.Bind[x] = trunc(constant.UnaryOp(token.SUB, a, 0), x.Type())
-				case x.Op == token.XOR && a.Kind() == constant.Int:
-					e.Bind[x] = trunc(constant.UnaryOp(token.XOR, a, 0), x.Type())
-				default:
-					e.Bind[x] = nil
-				}
-			case *ssa.Convert:
-				if _, pre := e.Bind[x]; pre {
-					continue
-				}
-				e.Bind[x] = trunc(e.val(x.X), x.Type())
-			case *ssa.ChangeType:
-				e.Bind[x] = e.val(x.X)
-			case *ssa.Call:
-				if _, pre := e.Bind[x]; pre {
-					continue
-				}
-				callee := x.Common().StaticCallee()
-				var args []Val
-				known := true
-				for _, a := range x.Common().Args {
-					v := e.val(a)
-					if v == nil {
-						known = false
-					}
-					args = append(args, v)
-				}
-				if e.OnCall != nil {
-					e.OnCall(x, args)
-				}
-				if callee == nil || !known || callee.Blocks == nil {
-					e.Bind[x] = nil
-					continue
-				}
-				res, err := e.call(callee, args)
-				if err != nil || len(res) != 1 {
-					e.Bind[x] = nil
-					continue
-				}
-				e.Bind[x] = res[0]
-			case *ssa.If:
-				c := e.val(x.Cond)
-				if c == nil || c.Kind() != constant.Bool {
-					return Outcome{Kind: "unknown", Why: fmt.Sprintf("branch on a value outside the folding fragment at %v", b.Parent().Prog.Fset.Position(x.Pos()))}
-				}
-				if constant.BoolVal(c) {
-					next = b.Succs[0]
-				} else {
-					next = b.Succs[1]
-				}
-			case *ssa.Jump:
-				next = b.Succs[0]
-			case *ssa.Return:
-				var rs []Val
-				for _, r := range x.Results {
-					rs = append(rs, e.val(r))
-				}
-				return Outcome{Kind: "return", Results: rs}
-			case *ssa.DebugRef:
-			default:
-				// anything else (memory, strings, allocation) produces an unknown value; effects are not modelled
-				if v, ok := in.(ssa.Value); ok {
-					if _, pre := e.Bind[v]; !pre {
-						e.Bind[v] = nil
-					}
-				}
-			}
-		}
-		if next == nil {
-			return Outcome{Kind: "unknown", Why: "block ends in an unsupported instruction"}
+		next, out, _ := e.block(b, pred, &steps)
+		if out != nil {
+			return *out
 		}
 		pred, b = b, next
 	}
+}
+
+// Explore interprets like Walk, but where a branch condition does not fold it
+// follows both successors (each with its own copy of the bindings). A path ends
+// at a stop instruction / stop block, at a return, when it re-enters a block it
+// has entered three times along the same edge (loops are unrolled three times,
+// then cut and reported as Kind "cut"), or when the budget runs out. All path outcomes are returned;
+// more than maxPaths paths yields one extra outcome of Kind "unknown".
+func (e *Env) Explore(b *ssa.BasicBlock, maxPaths int) []Outcome {
+	var outs []Outcome
+	type visitKey struct{ b, pred *ssa.BasicBlock }
+	var rec func(env *Env, b, pred *ssa.BasicBlock, seen map[visitKey]int)
+	rec = func(env *Env, b, pred *ssa.BasicBlock, seen map[visitKey]int) {
+		steps := 0
+		for {
+			if len(outs) > maxPaths {
+				return
+			}
+			k := visitKey{b, pred}
+			if seen[k] >= 3 {
+				outs = append(outs, Outcome{Kind: "cut", Why: "loop"})
+				return
+			}
+			seen[k]++
+			next, out, fork := env.block(b, pred, &steps)
+			if fork {
+				for _, s := range b.Succs {
+					sub := &Env{Bind: make(map[ssa.Value]Val, len(env.Bind)), StopAt: env.StopAt, StopBlock: env.StopBlock, Budget: env.Budget, OnCall: env.OnCall, depth: env.depth}
+					for k, v := range env.Bind {
+						sub.Bind[k] = v
+					}
+					seen2 := make(map[visitKey]int, len(seen))
+					for k, n := range seen {
+						seen2[k] = n
+					}
+					rec(sub, s, b, seen2)
+				}
+				return
+			}
+			if out != nil {
+				outs = append(outs, *out)
+				return
+			}
+			pred, b = b, next
+		}
+	}
+	rec(e, b, nil, map[visitKey]int{})
+	if len(outs) > maxPaths {
+		outs = append(outs, Outcome{Kind: "unknown", Why: "path budget exhausted"})
+	}
+	return outs
+}
+
+// block interprets one block. It returns the successor to continue with, or a
+// final outcome; fork reports that the block ends in a branch whose condition
+// did not fold (out then carries the "unknown" outcome Walk returns).
+func (e *Env) block(b, pred *ssa.BasicBlock, steps *int) (next *ssa.BasicBlock, out *Outcome, fork bool) {
+	if e.StopBlock[b] {
+		return nil, &Outcome{Kind: "stop", Stop: b.Instrs[0]}, false
+	}
+	for _, in := range b.Instrs {
+		*steps++
+		if *steps > e.Budget {
+			return nil, &Outcome{Kind: "unknown", Why: "step budget exhausted"}, false
+		}
+		if e.StopAt[in] {
+			return nil, &Outcome{Kind: "stop", Stop: in}, false
+		}
+		switch x := in.(type) {
+		case *ssa.Phi:
+			if pred == nil {
+				continue
+			}
+			for i, p := range b.Preds {
+				if p == pred {
+					e.Bind[x] = e.val(x.Edges[i])
+				}
+			}
+		case *ssa.BinOp:
+			if _, pre := e.Bind[x]; pre {
+				continue // forced by the caller
+			}
+			e.Bind[x] = binop(x.Op, e.val(x.X), e.val(x.Y), x.Type())
+		case *ssa.UnOp:
+			if _, pre := e.Bind[x]; pre {
+				continue
+			}
+			a := e.val(x.X)
+			switch {
+			case a == nil:
+				e.Bind[x] = nil
+			case x.Op == token.NOT && a.Kind() == constant.Bool:
+				e.Bind[x] = constant.MakeBool(!constant.BoolVal(a))
+			case x.Op == token.SUB && a.Kind() == constant.Int:
+				e.Bind[x] = trunc(constant.UnaryOp(token.SUB, a, 0), x.Type())
+			case x.Op == token.XOR && a.Kind() == constant.Int:
+				e.Bind[x] = trunc(constant.UnaryOp(token.XOR, a, 0), x.Type())
+			default:
+				e.Bind[x] = nil
+			}
+		case *ssa.Convert:
+			if _, pre := e.Bind[x]; pre {
+				continue
+			}
+			e.Bind[x] = trunc(e.val(x.X), x.Type())
+		case *ssa.ChangeType:
+			e.Bind[x] = e.val(x.X)
+		case *ssa.Call:
+			if _, pre := e.Bind[x]; pre {
+				continue
+			}
+			callee := x.Common().StaticCallee()
+			var args []Val
+			known := true
+			for _, a := range x.Common().Args {
+				v := e.val(a)
+				if v == nil {
+					known = false
+				}
+				args = append(args, v)
+			}
+			if e.OnCall != nil {
+				e.OnCall(x, args)
+			}
+			if callee == nil || !known || callee.Blocks == nil {
+				e.Bind[x] = nil
+				continue
+			}
+			res, err := e.call(callee, args)
+			if err != nil || len(res) != 1 {
+				e.Bind[x] = nil
+				continue
+			}
+			e.Bind[x] = res[0]
+		case *ssa.If:
+			c := e.val(x.Cond)
+			if c == nil || c.Kind() != constant.Bool {
+				return nil, &Outcome{Kind: "unknown", Why: fmt.Sprintf("branch on a value outside the folding fragment at %v", b.Parent().Prog.Fset.Position(x.Pos()))}, true
+			}
+			if constant.BoolVal(c) {
+				next = b.Succs[0]
+			} else {
+				next = b.Succs[1]
+			}
+		case *ssa.Jump:
+			next = b.Succs[0]
+		case *ssa.Return:
+			var rs []Val
+			for _, r := range x.Results {
+				rs = append(rs, e.val(r))
+			}
+			return nil, &Outcome{Kind: "return", Results: rs}, false
+		case *ssa.DebugRef:
+		default:
+			// anything else (memory, strings, allocation) produces an unknown value; effects are not modelled
+			if v, ok := in.(ssa.Value); ok {
+				if _, pre := e.Bind[v]; !pre {
+					e.Bind[v] = nil
+				}
+			}
+		}
+	}
+	if next == nil {
+		return nil, &Outcome{Kind: "unknown", Why: "block ends in an unsupported instruction"}, false
+	}
+	return next, nil, false
 }
 
 func binop(op token.Token, a, b Val, t types.Type) Val {
